@@ -718,17 +718,19 @@ Proof.
         cbn [on_env]; try reflexivity.
       rewrite !bind_eq. rewrite set_stack_env. cbv beta iota.
       unfold lookup_in, ty_in, lift. rewrite ?bind_eq. cbv beta iota.
+      unfold scope in *.
       match goal with |- context [lookup ?s (i_name i) sp] => destruct (lookup s (i_name i) sp) as [v| | |] end;
         try reflexivity.
-      unfold ret at 1. repeat (progress (cbv beta iota; rewrite ?bind_eq)).
+      unfold ret at 1. repeat (progress (cbv beta iota; rewrite ?bind_eq)). unfold scope in *.
       match goal with |- context [ty_r ?s t] => destruct (ty_r s t) as [t'| | |] end; reflexivity.
     + intros o e' s' H. peel H. inversion H. reflexivity.
   - (* PExternalDefinition *)
     split.
-    + rewrite !bind_eq. unfold lift at 1. unfold lookup_in at 1. unfold lift at 1.
-      destruct (lookup (with_env sts []) (i_name i) sp) as [v| | |]; try reflexivity.
-      rewrite !bind_eq. unfold lift at 1. unfold ty_in, lift.
-      destruct (ty_r (with_env sts []) t) as [t'| | |]; reflexivity.
+    + rewrite !bind_eq. unfold lookup_in, ty_in, lift. unfold scope in *.
+      match goal with |- context [lookup ?s (i_name i) sp] => destruct (lookup s (i_name i) sp) as [v| | |] end;
+        try reflexivity.
+      repeat (progress (cbv beta iota; rewrite ?bind_eq)). unfold scope in *.
+      match goal with |- context [ty_r ?s t] => destruct (ty_r s t) as [t'| | |] end; reflexivity.
     + intros o e' s' H. peel H. inversion H. reflexivity.
   - split; [reflexivity|]. intros o e' s' H. inversion H. reflexivity.
 Qed.
@@ -801,6 +803,12 @@ Proof.
   - apply keeps_from_imports.
 Qed.
 
+Lemma keeps_insert m : keeps_stack (insert_namespace_and_add_definitions m).
+Proof.
+  unfold insert_namespace_and_add_definitions. apply keeps_bind; [apply keeps_add_definitions|].
+  intros t st a st' H. unfold set_namespace in H. inversion H. reflexivity.
+Qed.
+
 Lemma with_env_nil st : st_stack st = [] -> st = with_env st [].
 Proof. destruct st; cbn; intros ->; reflexivity. Qed.
 
@@ -815,9 +823,7 @@ Proof.
     try reflexivity.
   assert (Hst : st_stack s2 = []).
   { rewrite (keeps_for_each _ ast (fun m => keeps_rgv (m_file m) (m_stmts m)) _ _ _ E2).
-    rewrite (keeps_for_each _ ast (fun m => keeps_bind _ _ (keeps_add_definitions (m_stmts m) [])
-                                              (fun t st a st' H => ltac:(inversion H; reflexivity))) _ _ _ E1).
-    reflexivity. }
+    rewrite (keeps_for_each _ ast keeps_insert _ _ _ E1). reflexivity. }
   assert (Hws : all_with wf_top (flat_map m_stmts ast) = true).
   { clear - Hw. induction ast as [|m ast IH]; [reflexivity|]. cbn in Hw. apply andb_true_iff in Hw as [Hm Ha].
     cbn [flat_map]. specialize (IH Ha). clear Ha. induction (m_stmts m) as [|s l IHl]; [exact IH|].
@@ -826,4 +832,12 @@ Proof.
   destruct (seq_with (stmt_s (fuel_of ast)) [] (flat_map m_stmts ast) s2) as [[out s3]| | |]; cbn [on_env]; try reflexivity.
   rewrite !bind_eq. unfold lift. rewrite lookup_global_env.
   destruct (lookup_global s3 0 "start") as [[nm|]| | |]; reflexivity.
+Qed.
+
+(* for whatever flags the code has: once all four are on, the code is the specification *)
+Theorem resolve_refines_when_restored fl :
+  if_truncates fl && case_truncates fl && else_truncates fl && access_local_first fl = true ->
+  forall ast, wf_ast ast = true -> resolve fl ast = resolve_spec ast.
+Proof.
+  destruct fl as [[] [] [] []]; cbn; intros H; try discriminate H. exact resolve_refines.
 Qed.
